@@ -1,10 +1,10 @@
 #!/bin/sh
-# sweep.sh <tier> <seed>...: run every claimed check on the unchanged tree for the given seeds; summary on stdout
+# sweep.sh <tier> <seed>...: run every claimed check (or those named in SWEEP_IDS) on the unchanged tree for the given seeds; summary on stdout
 TIER="$1"; shift
 D="$(cd "$(dirname "$0")/.." && pwd)"
 cd "$D" || exit 2
 ./setup.sh > /dev/null 2>&1 || { echo "setup failed"; exit 2; }
-IDS=$(python3 -c "import json;print(' '.join(c['property_id'] for c in json.load(open('MANIFEST.json'))['checks']))")
+[ -n "$SWEEP_IDS" ] && IDS="$SWEEP_IDS" || IDS=$(python3 -c "import json;print(' '.join(c['property_id'] for c in json.load(open('MANIFEST.json'))['checks']))")
 for s in "$@"; do
   for p in $IDS; do
     t0=$(date +%s)
